@@ -327,7 +327,7 @@ class PythonConstructRenderer:
             writer.write_line("key_transform_with_load = {")
             writer.indent()
             for api_field, python_field in sorted(field_mappings.items()):
-                writer.write_line(f'"{api_field}": "{python_field}",')
+                writer.write_line(f'{json.dumps(api_field, ensure_ascii=False)}: "{python_field}",')
             writer.dedent()
             writer.write_line("}")
 
@@ -336,7 +336,7 @@ class PythonConstructRenderer:
             writer.indent()
             # Reverse the mapping for dump
             for api_field, python_field in sorted(field_mappings.items(), key=lambda x: x[1]):
-                writer.write_line(f'"{python_field}": "{api_field}",')
+                writer.write_line(f'"{python_field}": {json.dumps(api_field, ensure_ascii=False)},')
             writer.dedent()
             writer.write_line("}")
 
